@@ -6,8 +6,8 @@ CONSTANTS
  HonorsHost = FALSE
  SchemeBound = FALSE
  StripOnRedirect = FALSE
- MaxFaults = 2
- Confs <- AllConfs
+ MaxFaults = 3
+ Confs <- QuickGenConfs
  ChalKinds <- AllChal
  FaultKinds <- AllFaults
  RedirTo <- AllRedir
